@@ -8,7 +8,7 @@ import pickle
 from .. import core, forest, models, tree
 
 MOD = "mc.props.c19"
-CLASSES = ("node", "anynode", "user", "falsy", "symlink")
+CLASSES = ("node", "anynode", "user", "falsy", "symlink", "slotextra", "dictnode")
 BOOK = ("_NodeMixin__children", "_NodeMixin__parent")
 LIGHT_BOOK = ("_LightNodeMixin__children", "_LightNodeMixin__parent")
 
@@ -45,6 +45,10 @@ def build(m, assign, targets, light=False):
             nodes[i] = anytree.AnyNode(id=name, data=data)
         elif assign[i] == "user":
             nodes[i] = pickcls.PUser(name, data)
+        elif assign[i] == "slotextra":
+            nodes[i] = pickcls.PSlotExtra(name, data)
+        elif assign[i] == "dictnode":
+            nodes[i] = pickcls.PDictNode(name, data)
         else:
             nodes[i] = pickcls.PFalsy(name, data)
         done.add(i)
@@ -73,7 +77,12 @@ def build(m, assign, targets, light=False):
 def own_vars(nd):
     try:
         d = object.__getattribute__(nd, "__dict__")
-        return {k: v for k, v in d.items() if k not in BOOK and k != "target"}
+        out = {k: v for k, v in d.items() if k not in BOOK and k != "target"}
+        if type(nd).__name__ == "PSlotExtra":
+            out["<slot extra>"] = getattr(nd, "extra", "<lost>")
+        if isinstance(nd, dict):
+            out["<items>"] = dict(dict.items(nd))
+        return out
     except AttributeError:
         return {k: getattr(nd, k) for k in ("name", "data")}
 
@@ -207,7 +216,7 @@ def check_case(t, shape, assign, targets, light, only=None):
     ops = mutation_ops(m.n)
     for entry in range(m.n):
         t.c["states"] += 1
-        for mname, meth in methods(light):
+        for mname, meth in methods(light or "slotextra" in assign):
             if only and (entry, mname) != only:
                 continue
             cp = meth(nodes[entry])
